@@ -587,6 +587,12 @@ func (r *c11Run[K, V]) checkOne(ops []c11Op, sn *c11Snap[K, V], target int, elap
 	// ---- load ----
 	n := c11New[K, V](target)
 	defer n.Close()
+	if lage := int64(r.env.Int("lage", 0)); lage > 0 {
+		// the loading cache was created lage seconds ago (and has ticked since): its wheel time is ahead of the clock
+		// it is about to adopt from a younger saver
+		c11Shift(n, lage*int64(time.Second))
+		c11Tick(n)
+	}
 	l0 := time.Since(time.Unix(0, savedStart)).Nanoseconds() // what the loader's clock shows once it adopted the saved origin
 	err := n.Recover(0, bytes.NewReader(stream))
 	l1 := n.timerwheel.clock.NowNano()
@@ -763,6 +769,27 @@ func (r *c11Run[K, V]) checkOne(ops []c11Op, sn *c11Snap[K, V], target int, elap
 				if e.pw != 1 {
 					costs = "mixed"
 				}
+			}
+		}
+		// admitting "while the region is below its capacity" can overshoot a capacity by less than one entry's cost;
+		// anything beyond that is a different defect than the recorded one (e.g. counting entries against a cost budget)
+		{
+			var maxc [3]int64
+			var sums [3]int64
+			for ri := range ln.reg {
+				for _, e := range ln.reg[ri] {
+					sums[ri] += e.pw
+					if e.pw > maxc[ri] {
+						maxc[ri] = e.pw
+					}
+				}
+			}
+			mainMax := maxc[1]
+			if maxc[2] > mainMax {
+				mainMax = maxc[2]
+			}
+			if sums[0] > int64(ln.caps[0])+maxc[0]-1 || sums[1] > int64(ln.caps[1])+maxc[1]-1 || sums[1]+sums[2] > int64(ln.caps[2])+mainMax-1 {
+				cause = "region-beyond-a-one-entry-overshoot"
 			}
 		}
 		bad("capacity", fmt.Sprintf("target=%s cause=%s costs=%s", tname, cause, costs),
